@@ -325,6 +325,18 @@ def _worker(args):
 
     t0 = time.monotonic()
     try:
+        import faulthandler
+        import signal
+
+        # `kill -USR1 <worker pid>` prints where a worker is (used to diagnose cases that do not return)
+        faulthandler.register(signal.SIGUSR1, all_threads=True, chain=False)
+        # a worker must not outlive the check that started it (PR_SET_PDEATHSIG = 1)
+        import ctypes
+
+        ctypes.CDLL("libc.so.6", use_errno=True).prctl(1, signal.SIGKILL)
+    except Exception:
+        pass
+    try:
         mod = importlib.import_module(mod_name)
         spec = mod.build(tier)
         sub = spec.subs[sub_index]
@@ -470,8 +482,26 @@ def main(mod_name, argv=None):
         elif W == 1:
             results = [_worker(jobs[0])]
         else:
-            with ctx.Pool(W) as pool:
-                results = pool.map(_worker, jobs)
+            # hard limit in real time: the wall budget, plus what collect-then-shrink may add after it, plus slack.  A
+            # worker that is still busy then is stuck in a case that does not return (or is far slower than anything
+            # seen on the unchanged tree): that is reported as a harness error (exit 2), never as a pass.
+            hard = sub.max_wall[tier] * 1.25 + 5 * ((45 if tier == "quick" else 200) + 60) + 300
+            pool = ctx.Pool(W)
+            try:
+                asyncres = [pool.apply_async(_worker, (j,)) for j in jobs]
+                t_end = time.monotonic() + hard
+                results = []
+                stuck = 0
+                for ar in asyncres:
+                    try:
+                        results.append(ar.get(timeout=max(1.0, t_end - time.monotonic())))
+                    except multiprocessing.TimeoutError:
+                        stuck += 1
+                if stuck:
+                    results.append({"harness_error": "%d of %d workers of sub-check %s had not finished %.0f s after the start (wall budget %d s): a case does not return or runs far beyond its budget" % (stuck, W, sub.name, hard, sub.max_wall[tier])})
+            finally:
+                pool.terminate()
+                pool.join()
         sub_eval = 0
         sub_nt = set()
         sub_skipped = 0
